@@ -2110,9 +2110,11 @@ func (mgr *Manager) AddPcapProcessorWebhook(url string) error {
 			}
 		}
 		mgr.pcapProcessorWebhookUrls = append(mgr.pcapProcessorWebhookUrls, url)
+		// listeners read the event outside of the service loop, give them a copy
+		webhooks := slices.Clone(mgr.pcapProcessorWebhookUrls)
 		mgr.event(Event{
 			Type:     "webhooksUpdated",
-			Webhooks: &mgr.pcapProcessorWebhookUrls,
+			Webhooks: &webhooks,
 		})
 		c <- mgr.saveState()
 		close(c)
@@ -2126,9 +2128,11 @@ func (mgr *Manager) DelPcapProcessorWebhook(url string) error {
 		for i, u := range mgr.pcapProcessorWebhookUrls {
 			if u == url {
 				mgr.pcapProcessorWebhookUrls = append(mgr.pcapProcessorWebhookUrls[:i], mgr.pcapProcessorWebhookUrls[i+1:]...)
+				// listeners read the event outside of the service loop, give them a copy
+				webhooks := slices.Clone(mgr.pcapProcessorWebhookUrls)
 				mgr.event(Event{
 					Type:     "webhooksUpdated",
-					Webhooks: &mgr.pcapProcessorWebhookUrls,
+					Webhooks: &webhooks,
 				})
 				c <- mgr.saveState()
 				close(c)
